@@ -424,7 +424,7 @@ func (e *Enc) typeFacts(x string, t types.Type, brk string, depth int) []string 
 			fs = append(fs, fmt.Sprintf("(< %s %s)", x, brk))
 		}
 	case *types.Slice:
-		fs = append(fs, fmt.Sprintf("(>= (slen %s) 0)", x), fmt.Sprintf("(>= (sref %s) 0)", x),
+		fs = append(fs, fmt.Sprintf("(>= (slen %s) 0)", x), fmt.Sprintf("(<= (slen %s) 4611686018427387904)", x), fmt.Sprintf("(>= (sref %s) 0)", x),
 			fmt.Sprintf("(=> (= (sref %s) 0) (= (slen %s) 0))", x, x))
 		if brk != "" {
 			fs = append(fs, fmt.Sprintf("(< (sref %s) %s)", x, brk))
